@@ -413,6 +413,30 @@ func (s *Server) handleDiscover(req *dhcpv4.DHCPv4) (*dhcpv4.DHCPv4, error) {
 		}
 	}
 
+	if existingLease != nil && !time.Now().Before(existingLease.ExpiresAt) && existingLease.MAC.String() == macStr {
+		// The client's lease has run out but the cleanup tick has not removed it
+		// yet. Retire it now and keep the pool allocation, which the OFFER below
+		// re-uses: otherwise the next tick would return the address that has just
+		// been offered again to the pool and hand it to another client.
+		s.leasesMu.Lock()
+		if s.leases[macStr] == existingLease {
+			delete(s.leases, macStr)
+		}
+		s.leasesMu.Unlock()
+		if len(existingLease.CircuitID) > 0 {
+			cidKey := hex.EncodeToString(existingLease.CircuitID)
+			s.leasesByCircuitIDMu.Lock()
+			if s.leasesByCircuitID[cidKey] == existingLease {
+				delete(s.leasesByCircuitID, cidKey)
+			}
+			s.leasesByCircuitIDMu.Unlock()
+		}
+		if s.loader != nil {
+			s.loader.RemoveSubscriber(ebpf.MACToUint64(mac))
+		}
+		existingLease = nil
+	}
+
 	var ip net.IP
 	var poolID uint32
 	var pool *Pool
